@@ -13,8 +13,18 @@ SHORT = {'amp_fraction': 'amp_fraction_threshold', 'amp_consistency': 'amp_consi
          'burst_fraction': 'burst_fraction_threshold'}
 
 
+SPY = {}
+
+
 def setup(sh):
-    pass
+    # recorder on the functional edge recomputation as the objects call it: which thresholds did they hand over?
+    def make(orig):
+        def spy(df_features, threshold_kwargs, *a, **k):
+            SPY['thresholds'] = copy.deepcopy(threshold_kwargs)
+            attach.count('rec:recompute_edges_called_by_object')
+            return orig(df_features, threshold_kwargs, *a, **k)
+        return spy
+    attach.attach('bycycle.burst.utils', 'recompute_edges', make, only_modules={'bycycle.objs.fit'})
 
 
 def expand(thr):
@@ -154,7 +164,20 @@ def run_history(sh, case, driver='history'):
             if obj.df_features is None:
                 continue
             before = obj.df_features.copy()
+            SPY.pop('thresholds', None)
             _, eo = outcome(lambda: obj.recompute_edges(r))
+            seen = SPY.get('thresholds')
+            if seen is not None:
+                # "every *_threshold lowered by r": compare what the object handed to the functional recomputation
+                exp = sh_.reduced(r)
+                badk = [k for k in set(exp) | set(seen) if k not in exp or k not in seen or
+                        abs(float(exp[k]) - float(seen[k])) > 1e-9]
+                attach.count('eval:thresholds_handed_over_compared')
+                if badk:
+                    vs.append({'mechanism': 'recompute-edges-thresholds-not-lowered-by-r',
+                               'message': 'step %d recompute_edges(%r): the object recomputed with %s, thresholds lowered by r are %s (keys %s)'
+                                          % (step, r, seen, exp, sorted(badk))})
+                    break
             ref, er = outcome(lambda: recompute_edges(before.copy(), sh_.reduced(r)))
             attach.count('eval:history_recompute_compared')
             d = same_outcome(obj.df_features if eo is None else None, eo, ref, er)
@@ -252,7 +275,7 @@ def gen_op(rng, method, nsigs):
     if r < 0.38:
         return ('edit_sig', int(rng.integers(0, nsigs)), str(rng.choice(['negate', 'roll'])))
     if r < 0.50:
-        return ('recompute', [None, 0.0, 0.05, 0.1, 0.2][int(rng.integers(0, 5))])
+        return ('recompute', [None, 0.0, 0.05, 0.1, 0.2, 0.005, 0.0125, 0.125, 0.1234][int(rng.integers(0, 9))])
     if r < 0.58:
         return ('load', int(rng.integers(0, nsigs)))
     if r < 0.72:
